@@ -1,7 +1,7 @@
 /* modstub - fixture module for C20.  One shared object, copied to m0.so .. m5.so;
  * the real iauthd-c loads the copies.  Every entry point appends one event line
  * to $VERIF_MODLOG; the constructor declares the dependencies listed for its
- * own name in $VERIF_MODGRAPH ("m0:m1,m2;m1:m3"; "m3:!m0" = m3 declares itself a back end of m0).
+ * own name (a destructor may be made slow, see module_destructor) in $VERIF_MODGRAPH ("m0:m1,m2;m1:m3"; "m3:!m0" = m3 declares itself a back end of m0).
  */
 #include <fcntl.h>
 #include <stdio.h>
@@ -83,5 +83,14 @@ void module_post_init(struct module *self)
 
 void module_destructor(void)
 {
+    /* $VERIF_MODSLOW ("m2:20;m4:15"): this module's destructor takes that many milliseconds */
+    const char *slow = getenv("VERIF_MODSLOW");
+    size_t nlen = strlen(myname);
+    while (slow && *slow) {
+        const char *semi = strchr(slow, ';');
+        if (!strncmp(slow, myname, nlen) && slow[nlen] == ':')
+            usleep(1000u * (unsigned)atoi(slow + nlen + 1));
+        slow = semi ? semi + 1 : NULL;
+    }
     ev("dtor", myname);
 }
